@@ -287,10 +287,6 @@ theorem discloseInto_pub_eq (sid : Nat) (pd d : Dict) :
   rw [e2, e3, e1]
   rfl
 
-/-- the three keys that reveal the publisher -/
-def isPublisherKey (key : String) : Prop :=
-  key = "publisher" ∨ key = "publisher_authid" ∨ key = "publisher_authrole"
-
 theorem discloseInto_get?_other (sid : Nat) (pd d : Dict) (key : String) (h : ¬ isPublisherKey key) :
     (discloseInto RolePublisher sid pd d).get? key = d.get? key := by
   unfold isPublisherKey at h
@@ -318,12 +314,6 @@ theorem discloseInto_get?_authrole (sid : Nat) (pd d : Dict) (hd : d.get? "publi
   rw [discloseInto_pub_eq]
   simp only
   cases h1 : pd.get? "authid" <;> cases h2 : pd.get? "authrole" <;> simp [Dict.get?_set, hd]
-
-/-- does recipient `r` get the publisher's identity? -/
-def disclosedTo (p : Publication) (r : Option Session) : Bool :=
-  match r with
-  | some s => p.disclose && s.hasFeature RoleSubscriber FeaturePubIdent
-  | none => false
 
 theorem eventDetails_eq (p : Publication) (st : Bool) (r : Option Session) :
     eventDetails p st r =
@@ -521,5 +511,145 @@ theorem BrokerInv.run {b : Broker} (hb : BrokerInv b) (steps : List BStep) : Bro
   induction steps generalizing b with
   | nil => exact hb
   | cons e rest ih => exact ih (hb.step e)
+
+/-! ### C12 / C08: the projection as a function of (p, s, session of k) -/
+
+theorem evOpt_toList_eq_deliveryOf (sess : SessKey → Option Session) (p : Publication) (s : Sub) (k : SessKey) :
+    (if s.matchesTopic p.topic = true ∧ k ∈ s.members
+      then (evOpt sess p (mkFilter p.opts) s s.isPattern k).toList else []) = deliveryOf sess p s k := by
+  unfold deliveryOf evOpt
+  cases hs : sess k with
+  | none => simp
+  | some c =>
+    simp only
+    by_cases hm : s.matchesTopic p.topic = true ∧ k ∈ s.members
+    · by_cases hr : receives p (mkFilter p.opts) c = true
+      · have h := (receives_iff p c).mp hr
+        have hc : s.matchesTopic p.topic = true ∧ k ∈ s.members ∧
+            ¬(c.key = p.publisher ∧ p.excludePub = true) ∧ ¬ ruledOut p.opts (sidOf c.key) c.details :=
+          ⟨hm.1, hm.2, h.1, h.2⟩
+        rw [if_pos hm, if_pos hr, if_pos hc]; rfl
+      · have h := mt (receives_iff p c).mpr hr
+        have hc : ¬(s.matchesTopic p.topic = true ∧ k ∈ s.members ∧
+            ¬(c.key = p.publisher ∧ p.excludePub = true) ∧ ¬ ruledOut p.opts (sidOf c.key) c.details) :=
+          fun hh => h ⟨hh.2.2.1, hh.2.2.2⟩
+        rw [if_pos hm, if_neg hr, if_neg hc]; rfl
+    · have hc : ¬(s.matchesTopic p.topic = true ∧ k ∈ s.members ∧
+          ¬(c.key = p.publisher ∧ p.excludePub = true) ∧ ¬ ruledOut p.opts (sidOf c.key) c.details) :=
+        fun hh => hm ⟨hh.1, hh.2.1⟩
+      rw [if_neg hm, if_neg hc]
+
+/-- The messages session `k` gets through subscription `s` from one publication. -/
+theorem through_syncPublish_eq_deliveryOf {b : Broker} (hb : BrokerInv b) (sess : SessKey → Option Session)
+    (now : Nat) (p : Publication) {s : Sub} (hs : s ∈ b.subs) (k : SessKey) :
+    through (b.syncPublish sess now p).2 k s.id = deliveryOf sess p s k := by
+  rw [through_syncPublish hb sess now p hs k, evOpt_toList_eq_deliveryOf]
+
+theorem deliveryOf_congr (sess1 sess2 : SessKey → Option Session) (p : Publication) (s1 s2 : Sub) (k : SessKey)
+    (hid : s1.id = s2.id) (htopic : s1.topic = s2.topic) (hkind : s1.kind = s2.kind)
+    (hmem : k ∈ s1.members ↔ k ∈ s2.members) (hsess : sess1 k = sess2 k) :
+    deliveryOf sess1 p s1 k = deliveryOf sess2 p s2 k := by
+  have hm : s1.matchesTopic p.topic = s2.matchesTopic p.topic := by
+    unfold Sub.matchesTopic; rw [hkind, htopic]
+  have hp : s1.isPattern = s2.isPattern := by unfold Sub.isPattern; rw [hkind]
+  unfold deliveryOf expectedEvent
+  rw [hsess, hm, hid, hp]
+  cases sess2 k with
+  | none => rfl
+  | some c =>
+    simp only
+    split
+    · rename_i hc; rw [if_pos ⟨hc.1, hmem.mp hc.2.1, hc.2.2⟩]
+    · rename_i hc; rw [if_neg (fun hh => hc ⟨hh.1, hmem.mpr hh.2.1, hh.2.2⟩)]
+
+theorem publishAll_subs : ∀ (ps : List ((SessKey → Option Session) × Nat × Publication)) (b : Broker),
+    (b.publishAll ps).1.subs = b.subs
+  | [], _ => rfl
+  | (sess, now, p) :: rest, b => by
+    simp only [Broker.publishAll]
+    rw [publishAll_subs rest, (syncPublish_subs b sess now p).1]
+
+theorem through_publishAll {s : Sub} (k : SessKey) :
+    ∀ (ps : List ((SessKey → Option Session) × Nat × Publication)) {b : Broker}, BrokerInv b → s ∈ b.subs →
+      through (b.publishAll ps).2 k s.id = ps.flatMap (fun x => deliveryOf x.1 x.2.2 s k)
+  | [], _, _, _ => rfl
+  | (sess, now, p) :: rest, b, hb, hs => by
+    simp only [Broker.publishAll, List.flatMap_cons]
+    rw [through_append, through_syncPublish_eq_deliveryOf hb sess now p hs k,
+      through_publishAll k rest (hb.publish sess now p) (by rw [(syncPublish_subs b sess now p).1]; exact hs)]
+
+theorem deliveryOf_pubs (sess : SessKey → Option Session) (p : Publication) (s : Sub) (k : SessKey) :
+    (deliveryOf sess p s k).map (fun x => x.msg.eventPub?) = [] ∨
+    (deliveryOf sess p s k).map (fun x => x.msg.eventPub?) = [some p.pubId] := by
+  unfold deliveryOf
+  cases sess k with
+  | none => left; rfl
+  | some c =>
+    simp only
+    split
+    · right; rfl
+    · left; rfl
+
+theorem flatMap_sublist_map {α β : Type} (f : α → List β) (g : α → β)
+    (h : ∀ a, f a = [] ∨ f a = [g a]) : ∀ l : List α, (l.flatMap f).Sublist (l.map g)
+  | [] => by simp
+  | a :: l => by
+    simp only [List.flatMap_cons, List.map_cons]
+    rcases h a with h1 | h1 <;> rw [h1]
+    · exact (flatMap_sublist_map f g h l).cons _
+    · exact (flatMap_sublist_map f g h l).cons_cons _
+
+/-! ### no pair is served twice -/
+
+theorem nodup_map_of_filter_le_one {α β : Type} [DecidableEq β] (f : α → β) :
+    ∀ (l : List α), (∀ a, (l.filter (fun x => decide (f x = a))).length ≤ 1) → (l.map f).Nodup
+  | [], _ => by simp
+  | x :: xs, h => by
+    simp only [List.map_cons, List.nodup_cons, List.mem_map, not_exists, not_and]
+    constructor
+    · intro y hy hfy
+      have := h (f x)
+      rw [List.filter_cons, if_pos (by simp)] at this
+      have hy' : y ∈ xs.filter (fun z => decide (f z = f x)) := List.mem_filter.mpr ⟨hy, by simp [hfy]⟩
+      have : 0 < (xs.filter (fun z => decide (f z = f x))).length := List.length_pos_of_mem hy'
+      simp only [List.length_cons] at *
+      omega
+    · apply nodup_map_of_filter_le_one f xs
+      intro a
+      have := h a
+      rw [List.filter_cons] at this
+      split at this
+      · simp only [List.length_cons] at this; omega
+      · exact this
+
+/-- Under the invariant no (recipient, subscription id) pair occurs twice among the EVENTs of a
+    publication. -/
+theorem syncPublish_pairs_nodup {b : Broker} (hb : BrokerInv b) (sess : SessKey → Option Session) (now : Nat)
+    (p : Publication) :
+    ((b.syncPublish sess now p).2.map (fun x => (x.to, x.msg.eventSub?))).Nodup := by
+  apply nodup_map_of_filter_le_one
+  rintro ⟨k, o⟩
+  cases o with
+  | none =>
+    have : (b.syncPublish sess now p).2.filter (fun x => decide ((x.to, x.msg.eventSub?) = (k, none))) = [] := by
+      rw [List.filter_eq_nil_iff]
+      intro x hx
+      obtain ⟨s, k', c, _, rfl⟩ := (mem_syncPublish_sends b sess now p x).mp hx
+      simp [expectedEvent, Msg.eventSub?]
+    rw [this]; simp
+  | some id =>
+    have heq : (b.syncPublish sess now p).2.filter (fun x => decide ((x.to, x.msg.eventSub?) = (k, some id))) =
+        through (b.syncPublish sess now p).2 k id := by
+      unfold through
+      apply List.filter_congr
+      intro x _
+      rw [Bool.eq_iff_iff]
+      simp
+    rw [heq]
+    obtain ⟨_, h2, h3, _⟩ := delivery_exact hb sess now p
+    by_cases he : ∃ s c, s.id = id ∧ Expected b sess p s k c
+    · obtain ⟨s, c, rfl, hexp⟩ := he
+      rw [h2 s k c hexp]; simp
+    · rw [h3 k id he]; simp
 
 end Nexus.L2
